@@ -876,6 +876,7 @@ pub fn parts() -> Vec<Box<dyn PartDyn>> {
             shrink_budget: 40,
             confirm_runs: 2,
             fuzz: None,
+            watchdog_s: 120,
         }),
         Box::new(Part::<Case> {
             name: "e2e",
@@ -888,6 +889,7 @@ pub fn parts() -> Vec<Box<dyn PartDyn>> {
             shrink_budget: 200,
             confirm_runs: 2,
             fuzz: None,
+            watchdog_s: 60,
         }),
         Box::new(Part::<ProbeCase> {
             name: "collector",
@@ -900,6 +902,7 @@ pub fn parts() -> Vec<Box<dyn PartDyn>> {
             shrink_budget: 2000,
             confirm_runs: 1,
             fuzz: None,
+            watchdog_s: 0,
         }),
     ]
 }
